@@ -10,7 +10,7 @@ import datetime
 import re
 from decimal import Decimal
 
-INT, DEC, STR, DATE, BOOL = 'int', 'dec', 'str', 'date', 'bool'
+INT, DEC, STR, DATE, BOOL, OBJ = 'int', 'dec', 'str', 'date', 'bool', 'obj'
 
 
 def etype(e):
@@ -19,6 +19,7 @@ def etype(e):
     if k == 'neg': return etype(e[1])
     if k == 'bin':
         op, l, r = e[1], etype(e[2]), etype(e[3])
+        if OBJ in (l, r): return DEC
         if l == DATE and r == DATE: return INT
         if DATE in (l, r): return DATE
         if op == '/': return DEC
@@ -83,6 +84,21 @@ FUNCS = {
 }
 
 
+def cast_dec(v):
+    """implicit cast of an untyped operand facing an int/decimal operand (int promotes to decimal)"""
+    if v is None:
+        return None
+    try:
+        return Decimal(v)
+    except Exception:
+        return None
+
+
+def operand(e, row):
+    v = ref(e, row)
+    return cast_dec(v) if etype(e) == OBJ else v
+
+
 def ref(e, row):
     """value of e on row (dict col -> value) under the statement's semantics"""
     k = e[0]
@@ -93,9 +109,10 @@ def ref(e, row):
         return None if v is None else -v
     if k == 'bin':
         op = e[1]
-        l, r = ref(e[2], row), ref(e[3], row)
+        l, r = operand(e[2], row), operand(e[3], row)
         if l is None or r is None: return None
         lt, rt = etype(e[2]), etype(e[3])
+        lt, rt = (DEC if lt == OBJ else lt), (DEC if rt == OBJ else rt)
         if lt == DATE and rt == DATE: return (l - r).days
         if lt == DATE: return l + datetime.timedelta(days=r) if op == '+' else l - datetime.timedelta(days=r)
         if rt == DATE: return r + datetime.timedelta(days=l)
@@ -109,7 +126,7 @@ def ref(e, row):
             if r == 0: return None
             return l % r
     if k == 'cmp':
-        l, r = ref(e[2], row), ref(e[3], row)
+        l, r = operand(e[2], row), operand(e[3], row)
         if l is None or r is None: return None
         return {'=': l == r, '!=': l != r, '<': l < r, '<=': l <= r, '>': l > r, '>=': l >= r}[e[1]]
     if k == 'match':
@@ -157,17 +174,17 @@ def ref(e, row):
 def D(s): return Decimal(s)
 
 
-COLUMNS = [('i', int), ('j', int), ('d', Decimal), ('e', Decimal), ('s', str), ('u', str), ('t', datetime.date), ('v', datetime.date), ('b', bool), ('c', bool)]
-COLTYPES = {'i': INT, 'j': INT, 'd': DEC, 'e': DEC, 's': STR, 'u': STR, 't': DATE, 'v': DATE, 'b': BOOL, 'c': BOOL}
+COLUMNS = [('o', object), ('i', int), ('j', int), ('d', Decimal), ('e', Decimal), ('s', str), ('u', str), ('t', datetime.date), ('v', datetime.date), ('b', bool), ('c', bool)]
+COLTYPES = {'o': OBJ, 'i': INT, 'j': INT, 'd': DEC, 'e': DEC, 's': STR, 'u': STR, 't': DATE, 'v': DATE, 'b': BOOL, 'c': BOOL}
 _d = datetime.date
 ROWS = [
-    (1, 2, D('1.5'), D('2'), 'abc', 'b', _d(2024, 2, 29), _d(2024, 3, 1), True, False),
-    (0, 0, D('0'), D('0.00'), '', 'x', _d(2000, 1, 1), _d(1999, 12, 31), False, False),
-    (None, 3, None, D('-1.25'), None, 'a.c', None, _d(2024, 2, 29), None, True),
-    (-3, None, D('-2.5'), None, 'Abc', None, _d(2024, 12, 31), None, True, None),
-    (7, -2, D('10'), D('3'), 'xyz', 'Y', _d(1970, 1, 1), _d(1970, 1, 1), False, True),
-    (None, None, None, None, None, None, None, None, None, None),
-    (2, 2, D('2'), D('2.0'), 'b', 'b', _d(2024, 3, 1), _d(2024, 2, 29), True, True),
+    (D('1.5'), 1, 2, D('1.5'), D('2'), 'abc', 'b', _d(2024, 2, 29), _d(2024, 3, 1), True, False),
+    (3, 0, 0, D('0'), D('0.00'), '', 'x', _d(2000, 1, 1), _d(1999, 12, 31), False, False),
+    (None, None, 3, None, D('-1.25'), None, 'a.c', None, _d(2024, 2, 29), None, True),
+    (D('-0.5'), -3, None, D('-2.5'), None, 'Abc', None, _d(2024, 12, 31), None, True, None),
+    ('2.5', 7, -2, D('10'), D('3'), 'xyz', 'Y', _d(1970, 1, 1), _d(1970, 1, 1), False, True),
+    (None, None, None, None, None, None, None, None, None, None, None),
+    (D('2'), 2, 2, D('2'), D('2.0'), 'b', 'b', _d(2024, 3, 1), _d(2024, 2, 29), True, True),
 ]
 
 
@@ -183,10 +200,12 @@ def same(a, b):
 
 
 # ---- enumerator ------------------------------------------------------------------------------
-CONSTS = {INT: [0, 1, -2], DEC: [D('0'), D('2.5')], STR: ['b', 'A'], DATE: [_d(2024, 2, 29)], BOOL: [True, False]}
+CONSTS = {OBJ: [], INT: [0, 1, -2], DEC: [D('0'), D('2.5')], STR: ['b', 'A'], DATE: [_d(2024, 2, 29)], BOOL: [True, False]}
 
 
 def leaves(t, small=False):
+    if t == OBJ:
+        return [('col', 'o', OBJ)]
     cols = [('col', c, t) for c, ct in COLTYPES.items() if ct == t]
     consts = [('const', v, t) for v in CONSTS[t]]
     if small:
@@ -215,6 +234,11 @@ def ops_for(t, sub):
                     for r in sub(rt):
                         out.append(('bin', op, l, r))
         out += [('bin', '/', l, r) for l in sub(INT) for r in sub(INT)]
+        for op in '+-*/%':
+            for lt, rt in ((OBJ, INT), (INT, OBJ), (OBJ, DEC), (DEC, OBJ)):
+                for l in sub(lt):
+                    for r in sub(rt):
+                        out.append(('bin', op, l, r))
         out += [('neg', x) for x in sub(DEC)]
         out += [('func', f, [x], DEC) for f in ('abs', 'neg') for x in sub(DEC)]
         out += [('func', 'safediv', [l, r], DEC) for l in sub(DEC) for r in sub(DEC)]
@@ -237,6 +261,11 @@ def ops_for(t, sub):
                 for l in sub(lt):
                     for r in sub(rt):
                         out.append(('cmp', op, l, r))
+        for op in ('=', '!=', '<', '<=', '>', '>='):
+            for lt, rt in ((OBJ, INT), (INT, OBJ), (OBJ, DEC), (DEC, OBJ)):
+                for l in sub(lt):
+                    for r in sub(rt):
+                        out.append(('cmp', op, l, r))
         out += [('match', l, r) for l in sub(STR) for r in sub(STR)]
         for tt in (INT, DEC, DATE, STR):
             for x in sub(tt):
@@ -250,7 +279,7 @@ def ops_for(t, sub):
                 out.append(('or', [l, r]))
         out += [('and', [a, b, c]) for a in sub(BOOL)[:3] for b in sub(BOOL)[-3:] for c in sub(BOOL)[:2]]
         out += [('or', [a, b, c]) for a in sub(BOOL)[:3] for b in sub(BOOL)[-3:] for c in sub(BOOL)[:2]]
-        for tt in (INT, DEC, STR, DATE, BOOL):
+        for tt in (INT, DEC, STR, DATE, BOOL, OBJ):
             for x in sub(tt):
                 out += [('not', x)] if tt == BOOL else []
                 out += [('isnull', x), ('isnotnull', x)]
@@ -272,6 +301,8 @@ def depth2_sample(t, rng, n):
     pools = {}
 
     def sub(tt):
+        if tt == OBJ:
+            return leaves(OBJ)
         if tt not in pools:
             d1 = depth1(tt)
             pools[tt] = [rng.choice(d1) for _ in range(3)] + leaves(tt, small=True)
